@@ -260,6 +260,31 @@ func runScript(engine string, script []call, shared, sockFirst bool) (trace []st
 		}
 		trace = append(trace, line)
 	}
+	// the module is closed and the guest goes on for three more calls (an embedder that keeps a function
+	// of a closed module): whatever those calls answer -- an error, usually -- is the same for every
+	// instance: nothing is handed from one closed module to the next
+	g.Mod.Close(ctx)
+	for i, c := range []call{
+		{Name: "clock_time_get", Args: []uint64{0, 0, 0x100}, Out: [][2]uint32{{0x100, 8}}},
+		{Name: "random_get", Args: []uint64{0x1000, 8}, Out: [][2]uint32{{0x1000, 8}}},
+		{Name: "clock_time_get", Args: []uint64{1, 0, 0x100}, Out: [][2]uint32{{0x100, 8}}},
+	} {
+		for _, o := range c.Out {
+			g.Fill(o[0], o[1], 0xEE)
+		}
+		errno, cerr := g.Call(ctx, c.Name, c.Args...)
+		line := fmt.Sprintf("after-close %d %s -> ", i, c.Name)
+		if cerr != nil {
+			line += "error: " + strings.TrimSuffix(strings.SplitN(cerr.Error(), "\n", 2)[0], " (recovered by wazero)")
+		} else {
+			line += w.ErrnoName(errno)
+		}
+		// (what the call left in the guest's memory counts too: the function ran before the error was reported)
+		for _, o := range c.Out {
+			line += " " + hex.EncodeToString(g.Read(o[0], o[1]))
+		}
+		trace = append(trace, line)
+	}
 	return trace, nil
 }
 
